@@ -44,6 +44,11 @@ def gen_plan(seed, k):
     for o in hist:
         if o["op"] == "run":
             o["snap"] = True
+        elif o["op"] == "recv" and rp.random() < 0.4:
+            # queued events carry a payload: params under several names (one of them twice), a namelist entry
+            o["params"] = [[nm, json.dumps(rp.choice([1, "x", [1, 2], {"k": "v"}]))] for nm in rp.sample(["alpha", "beta", "gamma", "beta"], rp.randint(2, 4))]
+            if rp.random() < 0.4:
+                o["namelist"] = [["zeta", json.dumps(rp.choice([0, "s"]))]]
     ops += hist
     other = p_c01.gen_chart(usimlib.substream(seed, "other"), dm, {})
     return {"id": k, "seed": seed, "entropy_seed": seed & 0x7fffffff, "engine": engine,
@@ -91,7 +96,7 @@ def norm(lines, start_seq=None, after_mark=None):
                 # a resumed interpreter announces it once more; not a behavioural difference of the chart
                 continue
             if kd == "ev":
-                f = [r[5].get("name"), r[5].get("data", "")[:60]]
+                f = [r[5].get("name"), r[5].get("data", "")[:60], r[5].get("params", "")[:200], r[5].get("namelist", "")[:100]]
             if kd == "st":
                 # only the configuration (and the terminal result) matter, not how many idle/macrostep results are returned
                 f = [r[6], r[5] if r[5] in ("FINISHED", "EXC") else ""]
